@@ -18,7 +18,7 @@ ASSUMPTIONS = ["jump-carrying kinds = Jump, Call, Branch*, Case* (own table in v
 def shards(tier, seed):
     from vf.common import shard_seeds
     hostile = [{"kind": "hostile", "seed": s, "n": 60 if tier == "quick" else 1500} for s in shard_seeds(seed, 2, "C03h")]
-    return std_shards("C03", tier, seed, 120, 2500, nshards=13) + hostile + macro_shards(tier, seed)[:2]
+    return std_shards("C03", tier, seed, 200, 2500, nshards=13) + hostile + macro_shards(tier, seed)[:2]
 
 
 def macro_shards(tier, seed):
